@@ -647,11 +647,8 @@ class Interp:
                 else:
                     raise Discard("unsupported_flat_op_" + op)
             except BasicError as err:
-                if handler_mode and not getattr(err, "passed_on", False):
-                    # an error raised by the handler itself: not defined by the property (QBasic stops, the
-                    # implementation re-enters the handler), so the oracle has no opinion
-                    raise Discard("error_inside_handler")
-                if getattr(err, "passed_on", False) or self.handler is None:
+                if handler_mode or self.in_handler or getattr(err, "passed_on", False) or self.handler is None:
+                    # an error raised by the handler itself, before its RESUME, is fatal (trapping is off while a handler is active)
                     # no handler (or an error inside the handler, or one that a deeper activation already gave up on)
                     if self.fail_sid is None:
                         self.fail_sid = self.cur_sid
@@ -669,7 +666,9 @@ class Interp:
                     pc += 1
                     continue
                 # ON ERROR GOTO label: the handler runs in the main module, on the main module's variables
+                self.in_handler = True   # also covers procedures the handler calls
                 action = self.run(self.globals, self.main_code, self.main_labels, start=self.main_labels[self.handler[1].upper()], handler_mode=True)
+                self.in_handler = False
                 if action is None:
                     raise ProgramEnd()
                 self.err_code = 0
